@@ -1,7 +1,17 @@
 """C18 — nearest-neighbour analysis equals brute force, invariant under rigid motion (DESIGN.md section 4, C18).
 
 Observed function: cryocat.nnana.get_nn_stats (table), run on a pair of particle lists and on the same pair moved
-rigidly (rotation Q, translation t) by this module's own numpy code.
+rigidly (rotation Q, translation t; all or some tomograms) by this module's own numpy code - either as fresh Motl
+objects or IN PLACE on the very objects of the first call (cross-call state). Both tables are judged alike: Lean
+verified checker checkKnn on the reported neighbours, direct evaluation of the statement per row, comparison with the
+Lean model; the two tables are compared with each other (invariance); every particle list handed to the library is
+compared before/after the call; column dtypes are recorded as returned.
+
+Finding kinds: `spec` = a clause of the statement fails on the real output (checker / own evaluation / two real runs /
+caller's list edited / numeric field returned as text / exception raised inside cryocat); `corr` = difference to the
+model or to the documented table layout, or an exception without a frame inside cryocat/ (harness-or-library-raised).
+Open known finding C18-K1: disjoint tomogram sets raise ValueError instead of giving an empty table (clause
+`disjoint-empty-result`, the only clause classify() maps to it).
 """
 import ast, math, json, hashlib
 import numpy as np
@@ -12,19 +22,29 @@ PROP = "C18"
 COUNT = {"quick": 120, "thorough": 2500, "search": 600}
 PARALLEL = True
 GRID = 64  # positions and shifts are multiples of 1/64 (so squared distances are exact in binary64)
-RULE = ("pairs of particle lists (1..200 particles each, 1..4 tomograms with arbitrary non-contiguous ids, interleaved list order; tomogram sets equal / "
-        "overlapping / disjoint; second list independent, coincident with the first, or a superset of it), positions and non-zero shifts on the 1/64 grid "
-        "(wide, dense-cluster and jittered-lattice layouts), arbitrary real Euler angles incl. gimbal and out-of-range values, k in 1..5 (also k > number of "
-        "candidates), dyadic pixel size, random proper rotation Q (also identity / half turns) and real translation t; cases with a tie among the k+1 "
-        "smallest squared distances of any query are regenerated. non-trivial = some common tomogram has >= 2 queries and more candidates than k, a non-zero "
-        "shift occurs and Q is not the identity; distinct = distinct content hash of the case")
+RULE = ("pairs of particle lists (1..200 particles each, 1..4 tomograms with arbitrary non-contiguous or 1,2,3.. numbers; rows interleaved, in ascending / descending / "
+        "shuffled tomogram blocks; tomogram sets equal / overlapping (half of the time the tomogram one list lacks sorts BELOW a common one) / disjoint / 'clamp' (an early "
+        "common tomogram has fewer candidates than k, a later one more); second list independent, coincident with the first (same Motl object), or a superset of it), "
+        "subtomogram numbers unique in the list or restarting in every tomogram (35 %: rows are identified by (tomogram, position in the tomogram's subset), never by the "
+        "number alone), positions and non-zero shifts on the 1/64 grid (wide, dense-cluster and jittered-lattice layouts), arbitrary real Euler angles incl. gimbal, next-to-gimbal "
+        "and out-of-range values, in 20 % of the cases drawn from a small pool so that query and neighbour carry bit-identical (or 1e-9..1e-4 degrees apart) orientations, "
+        "k in 1..5 (also k > number of candidates), dyadic pixel size, random proper rotation Q (also identity / half turns) and real translation t applied to all or to SOME "
+        "tomograms; cases with a tie among the k+1 smallest squared distances of any query are regenerated. "
+        "Call form: get_nn_stats(Motl, Motl, pixel_size=, feature_id='tomo_id', nn_number=, rotation_type='angular_distance'); each of feature_id / rotation_type is OMITTED in "
+        "30 % of the cases, pixel_size in 30 % of those with pixel size 1, nn_number in 30 % of those with k = 1, so that the library's defaults are exercised. "
+        "Cross-call state (35 %, mode 'inplace'): the SAME Motl object(s) (both / only the second / only the first list) are analysed, moved rigidly in place, and analysed again; "
+        "otherwise fresh objects are built for the moved lists. Both calls are judged alike (verified checker, statement, model) and every particle list is compared before/after each call. "
+        "The documented call form with two FILE PATHS (get_nn_stats(path_a, path_b)) is NOT exercised and nothing is claimed about it: it raises TypeError today "
+        "(Motl(motl_path=...) does not exist) and lies outside the literal statement. "
+        "non-trivial = some common tomogram has >= 2 queries and more candidates than k, a non-zero shift occurs and Q is not the identity; distinct = distinct content hash of the case")
 ASSUMPTIONS = [
     "sklearn.neighbors.KDTree.query(k) returns the k smallest Euclidean distances in ascending order (= brute force); checked on every case by the Lean verified checker checkKnn on the implementation's own neighbour lists, and probed",
-    "binary64 arithmetic on the 1/64 grid is exact for complete positions, pixel scaling and squared distances, so numpy's and the Float driver's neighbour decisions equal the exact-arithmetic ones of the theorems",
-    "scipy Rotation.from_euler('zxz', degrees=True) is the matrix Rz(psi)Rx(theta)Rz(phi); as_euler returns a valid triple of the same rotation (probed against this module's own matrices)",
-    "the quaternion formula 2*arccos|q1.q2| of geom.angular_distance equals the rotation angle atan2(|skew|/2, (trace-1)/2) of the relative rotation (compared numerically with a conditioning-aware tolerance; not proved)",
+    "binary64 arithmetic on the 1/64 grid is exact for complete positions, pixel scaling and squared distances, so numpy's and the Float driver's neighbour decisions equal the exact-arithmetic ones of the theorems; after the harness' rigid motion the squared distances carry a rounding error < 1e-9 against a gap >= 2^-12 between distinct values, so the decisions stay the same",
+    "scipy Rotation.from_euler('zxz', degrees=True) is the matrix Rz(psi)Rx(theta)Rz(phi); as_euler returns a triple of the same rotation, except that inside its gimbal-lock zone (|sin theta| <= 1e-7) it zeroes the third angle and the triple describes a rotation up to 2 sin(theta) (< 1e-5 degrees) away: Euler triples REPORTED by the library are compared with tolerance 1e-9 + 3 sin(theta) there (probed against this module's own matrices)",
+    "the quaternion formula 2*arccos(min(|q1.q2|,1)) of geom.angular_distance equals the rotation angle arccos((trace-1)/2) = atan2(|skew|/2, (trace-1)/2) of the relative rotation: PROVED over the reals (Props/C18 angular_distance_is_rotation_angle, nnStats_angular_real, through C06 angDist_is_rotation_angle / trace_rel); in binary64 the two forms are compared with a conditioning-aware tolerance",
+    "a table whose subtomogram numbers repeat across tomograms carries no tomogram column: a row is attributed to the (query, neighbour) pair with those two numbers whose distance and offset it reports; rows that say exactly the same about several pairs are interchangeable and are spread over the pairs (documented row layout as tie-break only)",
 ]
-TRUSTED = ["props/c18.py own numpy code: zxz matrices, Euler extraction, rigid motion of a particle list, brute-force evaluation of the statement"]
+TRUSTED = ["props/c18.py own numpy code: zxz matrices, Euler extraction, rigid motion of a particle list, brute-force evaluation of the statement, attribution of table rows to (query, neighbour) pairs"]
 
 COLS = ["score", "geom1", "geom2", "subtomo_id", "tomo_id", "object_id", "subtomo_mean", "x", "y", "z",
         "shift_x", "shift_y", "shift_z", "geom3", "geom4", "geom5", "phi", "psi", "theta", "class"]
@@ -33,8 +53,86 @@ STATS_COLUMNS = ["distance", "coord_x", "coord_y", "coord_z", "coord_rx", "coord
 
 
 # ------------------------------------------------------------------ translator
+# Names of the local variables of the anchored functions at the documented (pinned) source, in order of first binding. The
+# translator renames the locals of the CURRENT source, by binding order, to these names before any expression is extracted, so
+# that a rename of a local variable leaves every anchor unchanged while an added / removed / reordered binding shifts them.
+DOC_LOCALS = {
+    "get_feature_nn_indices": ["coord_a", "coord_nn", "nn_count", "kdt_nn", "nn_dist", "nn_idx", "ordered_idx"],
+    "get_nn_distances": ["features_a", "features_nn", "features", "centered_coord", "nn_dist", "angular_distances", "rotated_coord", "subtomo_idx",
+                         "subtomo_idx_nn", "f", "fm_a", "fm_nn", "idx", "nn_idx", "dist", "nn_count", "coord_nn", "coord_a", "angles_a", "angles_nn",
+                         "rotations", "angles", "rot", "subtomos_nn", "subtomos_a", "i", "c_coord", "angles_nn_sel", "rotations_nn"],
+    "get_nn_rotations": ["features_a", "features_nn", "features", "nn_rotations", "f", "fm_a", "fm_nn", "idx", "idx_nn", "_", "nn_count", "angles_nn",
+                         "angles_ref_to_zero", "rot_to_zero", "i", "rot_nn", "points_on_sphere", "angles"],
+    "get_nn_stats": ["centered_coord", "rotated_coord", "nn_dist", "ang_dst", "subtomo_idx", "subtomo_idx_nn", "coord_rot", "angles", "nn_stats"],
+    "angular_distance": ["rot1", "rot2", "angles1", "angles2", "sym_div", "q1", "q2", "angle", "dist"],
+    "compare_rotations": ["dist_degrees", "dist_degrees_normals", "dist_degrees_inplane"],
+    "visualize_rotations": ["starting_point", "new_points", "fig", "ax"],
+    "get_coordinates": ["coord"],
+    "get_angles": ["angles"],
+}
+MISSING = "<anchor missing>"  # value written to Gen/C18.lean for an anchor that cannot be extracted (no Gen value feeds the model)
+
+
+def _alpha(fn):
+    """copy of the function with its local variables renamed, by order of first binding, to the documented names"""
+    import copy
+    fn = copy.deepcopy(fn)
+    a = fn.args
+    params = {x.arg for x in a.posonlyargs + a.args + a.kwonlyargs} | ({a.vararg.arg} if a.vararg else set()) | ({a.kwarg.arg} if a.kwarg else set())
+    order = []
+
+    class Collect(ast.NodeVisitor):
+        def visit_Name(self, n):
+            if isinstance(n.ctx, ast.Store) and n.id not in params and n.id not in order:
+                order.append(n.id)
+
+    Collect().visit(fn)
+    doc = DOC_LOCALS.get(fn.name, [])
+    ren = {old: (doc[k] if k < len(doc) else f"_local{k}") for k, old in enumerate(order)}
+
+    class Rename(ast.NodeTransformer):
+        def visit_Name(self, n):
+            if n.id in ren:
+                n.id = ren[n.id]
+            return n
+
+    Rename().visit(fn)
+    return fn
+
+
 def _fn(src, rel, name):
-    return src.find(rel, name)
+    return _alpha(src.find(rel, name))
+
+
+def _dump(fn):
+    """normalised dump of a whole function: signature, then one line per statement (nesting depth as leading dots, docstring dropped)"""
+    E = core.norm_expr
+    out = ["def " + fn.name + "(" + E(fn.args) + ")"]
+
+    def block(stmts, d):
+        for s in stmts:
+            pre = "." * d
+            if isinstance(s, ast.Expr) and isinstance(s.value, ast.Constant) and isinstance(s.value.value, str):
+                continue
+            if isinstance(s, ast.If):
+                out.append(pre + "if " + E(s.test))
+                block(s.body, d + 1)
+                if s.orelse:
+                    out.append(pre + "else")
+                    block(s.orelse, d + 1)
+            elif isinstance(s, (ast.For, ast.While)):
+                out.append(pre + ("for " + E(s.target) + " in " + E(s.iter) if isinstance(s, ast.For) else "while " + E(s.test)))
+                block(s.body, d + 1)
+                if s.orelse:
+                    out.append(pre + "else")
+                    block(s.orelse, d + 1)
+            elif isinstance(s, (ast.With, ast.Try, ast.FunctionDef, ast.ClassDef, ast.Match) if hasattr(ast, "Match") else (ast.With, ast.Try, ast.FunctionDef, ast.ClassDef)):
+                out.append(pre + type(s).__name__ + ":" + ast.unparse(s).replace(" ", "").replace("\n", ";"))
+            else:
+                out.append(pre + E(s))
+
+    block(fn.body, 1)
+    return out
 
 
 def _assign_value(fn, target):
@@ -47,6 +145,10 @@ def _assign_value(fn, target):
 
 def _calls(fn, attr):
     return [n for n in ast.walk(fn) if isinstance(n, ast.Call) and isinstance(n.func, ast.Attribute) and n.func.attr == attr]
+
+
+def _named_calls(fn, name):
+    return [n for n in ast.walk(fn) if isinstance(n, ast.Call) and ((isinstance(n.func, ast.Attribute) and n.func.attr == name) or (isinstance(n.func, ast.Name) and n.func.id == name))]
 
 
 def _append_arg(fn, listname):
@@ -68,6 +170,15 @@ def _euler_calls(fn):
         out.append((seq, deg))
     if not out:
         raise core.AnchorMissing(f"{fn.name}: no from_euler/as_euler call")
+    return out
+
+
+def _defaults(fn):
+    """['name=literal', ...] for every parameter of fn that has a default, in signature order"""
+    a = fn.args
+    names = [x.arg for x in a.posonlyargs + a.args]
+    out = [f"{n}={ast.literal_eval(d)!r}" for n, d in zip(names[len(names) - len(a.defaults):], a.defaults)]
+    out += [f"{x.arg}={ast.literal_eval(d)!r}" for x, d in zip(a.kwonlyargs, a.kw_defaults) if d is not None]
     return out
 
 
@@ -134,7 +245,32 @@ def translate(src):
         return [str(src.literal(defs["feature_id"])), str(src.literal(defs["rotation_type"]))]
 
     sdef = src.anchor("get_nn_stats:defaults", stats_defaults)
+    # G1: every signature default the statement depends on, and the keywords by which get_nn_stats hands its arguments on
+    sig_s = src.anchor("get_nn_stats:signature-defaults", lambda: _defaults(fs()))
+    sig_d = src.anchor("get_nn_distances:signature-defaults", lambda: _defaults(fd()))
+    sig_r = src.anchor("get_nn_rotations:signature-defaults", lambda: _defaults(fr()))
+    sig_i = src.anchor("get_feature_nn_indices:signature-defaults", lambda: _defaults(fi()))
+    sig_g = src.anchor("geom:signature-defaults", lambda: [";".join(_defaults(_fn(src, gm, f))) for f in ("compare_rotations", "angular_distance", "visualize_rotations")])
+
+    def inner_calls():
+        f = fs()
+        out = []
+        for name in ("get_nn_distances", "get_nn_rotations"):
+            c = _named_calls(f, name)
+            if len(c) != 1:
+                raise core.AnchorMissing(f"get_nn_stats: {len(c)} calls of {name}")
+            out.append(E(c[0]))
+        c = _named_calls(fr(), "visualize_rotations")
+        if len(c) != 1:
+            raise core.AnchorMissing("get_nn_rotations: visualize_rotations call")
+        out.append(E(c[0]))
+        c = _named_calls(fd(), "get_feature_nn_indices") + _named_calls(fr(), "get_feature_nn_indices")
+        out.append(";".join(E(x) for x in c))
+        return out
+
+    icalls = src.anchor("get_nn_stats:inner-calls", inner_calls)
     shst = src.anchor("get_nn_stats:hstack-order", lambda: E(next(c for c in _calls(fs(), "hstack")).args[0]))
+
     def ang_formula():
         """the angle expression with an optional clamp `np.minimum(X, 1.0)` of the dot product removed (the clamp is recorded separately)"""
         node = _assign_value(_fn(src, gm, "angular_distance"), "angle")
@@ -153,7 +289,7 @@ def translate(src):
         return [E(Strip().visit(copy.deepcopy(node))), "clamped" if clamped[0] else "unclamped"]
 
     angf2 = src.anchor("geom.angular_distance:formula", ang_formula)
-    angf, angc = (angf2 if angf2 else (None, "unknown"))
+    angf, angc = (angf2 if angf2 else (None, None))
 
     def cmp_branch():
         fn = _fn(src, gm, "compare_rotations")
@@ -166,12 +302,24 @@ def translate(src):
     cmpb = src.anchor("geom.compare_rotations:angular_distance-branch", cmp_branch)
     zax = src.anchor("geom.visualize_rotations:z-axis", lambda: E(_assign_value(_fn(src, gm, "visualize_rotations"), "starting_point")) + ";" +
                      E(_assign_value(_fn(src, gm, "visualize_rotations"), "new_points")))
+    # G5: whole bodies (locals alpha-renamed), so that an added statement or a changed branch that no case executes is seen
+    body_i = src.anchor("get_feature_nn_indices:body", lambda: _dump(fi()))
+    body_d = src.anchor("get_nn_distances:body", lambda: _dump(fd()))
+    body_r = src.anchor("get_nn_rotations:body", lambda: _dump(fr()))
+    body_s = src.anchor("get_nn_stats:body", lambda: _dump(fs()))
+    body_a = src.anchor("geom.angular_distance:body", lambda: _dump(_fn(src, gm, "angular_distance")))
+    body_c = src.anchor("geom.compare_rotations:body", lambda: _dump(_fn(src, gm, "compare_rotations")))
 
     def L(v):
-        return core.lean_str_list(v if isinstance(v, list) and all(isinstance(x, str) for x in v) else [])
+        return core.lean_str_list(v) if isinstance(v, list) and all(isinstance(x, str) for x in v) else core.lean_str_list([MISSING])
+
+    def LL(v):
+        if not (isinstance(v, list) and all(isinstance(x, str) for x in v)):
+            return core.lean_str_list([MISSING])
+        return "[\n  " + ",\n  ".join(S(x) for x in v) + "]"
 
     def T(v):
-        return S(v if isinstance(v, str) else "")
+        return S(v if isinstance(v, str) else MISSING)
 
     return f"""-- GENERATED by harness/props/c18.py from {nn}, {gm}, {cm}; do not edit
 namespace CryoCat.Gen.C18
@@ -205,11 +353,27 @@ def angularFormula : String := {T(angf)}
 def angularDotClamp : String := {T(angc)}
 def compareBranch : String := {T(cmpb)}
 def zAxisExpr : String := {T(zax)}
+def sigStats : List String := {L(sig_s)}
+def sigDistances : List String := {L(sig_d)}
+def sigRotations : List String := {L(sig_r)}
+def sigIndices : List String := {L(sig_i)}
+def sigGeom : List String := {L(sig_g)}
+def innerCalls : List String := {L(icalls)}
+def bodyIndices : List String := {LL(body_i)}
+def bodyDistances : List String := {LL(body_d)}
+def bodyRotations : List String := {LL(body_r)}
+def bodyStats : List String := {LL(body_s)}
+def bodyAngular : List String := {LL(body_a)}
+def bodyCompare : List String := {LL(body_c)}
 end CryoCat.Gen.C18
 """
 
 
 # ------------------------------------------------------------------ own numpy geometry
+class HarnessError(RuntimeError):
+    """a failure of this module's own code (never attributed to cryoCAT)"""
+
+
 def rz(a):
     c, s = math.cos(a), math.sin(a)
     return np.array([[c, -s, 0.0], [s, c, 0.0], [0.0, 0.0, 1.0]])
@@ -226,18 +390,21 @@ def zxz_matrix(phi, theta, psi):
 
 
 def zxz_angles(R):
-    """(phi, theta, psi) in degrees with zxz_matrix(phi, theta, psi) = R"""
+    """(phi, theta, psi) in degrees with zxz_matrix(phi, theta, psi) = R, accurate also next to the gimbal lock: psi comes from the
+    (possibly ill-conditioned) third column, phi from the always well-conditioned sum phi+psi (cos theta >= 0: R00+R11 = (1+cos)cos(phi+psi),
+    R10-R01 = (1+cos)sin(phi+psi)) or difference psi-phi (cos theta < 0: R00-R11 = (1-cos)cos(psi-phi), R10+R01 = (1-cos)sin(psi-phi)),
+    so that an error of psi is compensated in phi"""
     st = math.hypot(R[0, 2], R[1, 2])
     theta = math.atan2(st, R[2, 2])
-    if st > 1e-9:
-        psi = math.atan2(R[0, 2], -R[1, 2])
-        phi = math.atan2(R[2, 0], R[2, 1])
+    psi = math.atan2(R[0, 2], -R[1, 2]) if st > 1e-300 else 0.0
+    if R[2, 2] >= 0:
+        phi = math.atan2(R[1, 0] - R[0, 1], R[0, 0] + R[1, 1]) - psi
     else:
-        phi = 0.0
-        psi = math.atan2(R[1, 0], R[0, 0])
+        phi = psi - math.atan2(R[1, 0] + R[0, 1], R[0, 0] - R[1, 1])
+    phi = math.atan2(math.sin(phi), math.cos(phi))
     out = (math.degrees(phi), math.degrees(theta), math.degrees(psi))
-    if np.abs(zxz_matrix(*out) - R).max() > 1e-9:
-        raise RuntimeError("own Euler extraction failed")
+    if not np.abs(zxz_matrix(*out) - R).max() <= 1e-12:
+        raise HarnessError(f"own Euler extraction failed (dev {np.abs(zxz_matrix(*out) - R).max():.3g})")
     return out
 
 
@@ -253,15 +420,26 @@ def rot_angle_deg(M):
     return math.degrees(math.atan2(sk / 2.0, (np.trace(M) - 1.0) / 2.0))
 
 
-def move_list(rows, Q, t):
-    """rigid motion of a particle list: complete position -> Q pos + t, orientation R -> Q R; shifts kept"""
+def move_list(rows, Q, t, only=None):
+    """rigid motion of the particles of the tomograms in `only` (None: every tomogram): complete position -> Q pos + t,
+    orientation R -> Q R; shifts kept; the other particles are returned unchanged"""
     out = []
     for r in rows:
         tomo, sub, x, y, z, sx, sy, sz, ph, th, ps = r
+        if only is not None and int(tomo) not in only:
+            out.append(list(r))
+            continue
         p = Q @ np.array([x + sx, y + sy, z + sz]) + t
         a = zxz_angles(Q @ zxz_matrix(ph, th, ps))
         out.append([tomo, sub, float(p[0] - sx), float(p[1] - sy), float(p[2] - sz), sx, sy, sz, a[0], a[1], a[2]])
     return out
+
+
+def _moved(case):
+    Q, t = quat_matrix(case["Q"]), np.array(case["t"], dtype=float)
+    mt = case.get("move_tomos")
+    only = None if mt is None else {int(x) for x in mt}
+    return move_list(case["a"], Q, t, only), move_list(case["nn"], Q, t, only)
 
 
 # ------------------------------------------------------------------ generators
@@ -287,8 +465,10 @@ def _angle(rng, kind):
         return rng.uniform(0, 180) if kind == "theta" else rng.uniform(-180, 180)
     if u < 0.82:
         return rng.choice([0.0, 90.0, 180.0, -90.0, 45.0, 30.0, 120.0])
-    if u < 0.90:
+    if u < 0.88:
         return rng.choice([0.0, 180.0]) if kind == "theta" else rng.choice([0.0, 360.0, -180.0])
+    if u < 0.90 and kind == "theta":
+        return rng.choice([0.0, 180.0]) + rng.choice([-1, 1]) * 10 ** rng.uniform(-9, -4)  # next to the gimbal lock
     return rng.uniform(-720, 720)  # out of the canonical range
 
 
@@ -296,8 +476,40 @@ def _g(rng, R):
     return rng.randint(-R * GRID, R * GRID) / GRID
 
 
-def _particles(rng, n, tomos, layout, R, sub0):
-    subs = rng.sample(range(sub0, sub0 + 5 * n + 10), n)
+def _tomoseq(rng, counts, order):
+    """tomogram number of every row of a list with `counts` = [(tomogram, number of particles)]"""
+    blocks = [[t] * c for t, c in counts]
+    if order == "interleaved":
+        seq = [t for b in blocks for t in b]
+        rng.shuffle(seq)
+        return seq
+    if order == "ascending":
+        blocks.sort(key=lambda b: b[0])
+    elif order == "descending":
+        blocks.sort(key=lambda b: -b[0])
+    else:
+        rng.shuffle(blocks)
+    return [t for b in blocks for t in b]
+
+
+def _subids(rng, seq, submode, sub0):
+    """subtomogram numbers: unique in the list, or restarting in every tomogram (unique only within list x tomogram)"""
+    n = len(seq)
+    if submode == "unique":
+        return rng.sample(range(sub0, sub0 + 5 * n + 10), n)
+    pools = {}
+    out = []
+    for t in seq:
+        if t not in pools:
+            c = seq.count(t)
+            pools[t] = rng.sample(range(1, c + 3), c)
+        out.append(pools[t].pop())
+    return out
+
+
+def _particles(rng, seq, layout, R, submode, sub0, pool=None):
+    n = len(seq)
+    subs = _subids(rng, seq, submode, sub0)
     rows = []
     centres = [[_g(rng, R) for _ in range(3)] for _ in range(3)]
     for i in range(n):
@@ -312,8 +524,13 @@ def _particles(rng, n, tomos, layout, R, sub0):
             sh = [rng.randint(-4 * GRID, 4 * GRID) / GRID for _ in range(3)]
         else:
             sh = [0.0, 0.0, 0.0]
-        rows.append([rng.choice(tomos), subs[i], p[0] - sh[0], p[1] - sh[1], p[2] - sh[2], sh[0], sh[1], sh[2],
-                     _angle(rng, "phi"), _angle(rng, "theta"), _angle(rng, "psi")])
+        if pool is not None and rng.random() < 0.8:
+            ang = list(rng.choice(pool))  # orientations from a discrete set (template matching): query and neighbour bit-identical
+            if rng.random() < 0.25:       # ... or a hair apart: the relative orientation sits next to the Euler pole
+                ang[1] += rng.choice([-1, 1]) * 10 ** rng.uniform(-9, -4)
+        else:
+            ang = [_angle(rng, "phi"), _angle(rng, "theta"), _angle(rng, "psi")]
+        rows.append([seq[i], subs[i], p[0] - sh[0], p[1] - sh[1], p[2] - sh[2], sh[0], sh[1], sh[2]] + ang)
     return rows
 
 
@@ -330,36 +547,86 @@ def _size(rng, tier):
     return rng.randint(90, 200)
 
 
-def _one(rng, tier):
+def _split(rng, n, tomos):
+    """[(tomogram, count >= 1)] with the counts adding up to max(n, len(tomos))"""
+    c = {t: 1 for t in tomos}
+    for _ in range(max(0, n - len(tomos))):
+        c[rng.choice(tomos)] += 1
+    return [(t, c[t]) for t in tomos]
+
+
+def _tomoconfig(rng, tier, k):
+    """tomogram sets and sizes of the two lists -> (counts_a, counts_nn, family)"""
     na, nb = _size(rng, tier), _size(rng, tier)
-    nt = rng.choice([1, 1, 2, 3, 4])
-    ids = rng.sample(range(1, 400), 6)
     u = rng.random()
-    if u < 0.55:
-        ta, tb, overlap = ids[:nt], ids[:nt], "same"
-    elif u < 0.92:
-        ta = ids[:nt]
-        tb = ids[max(0, nt - 1 - rng.randint(0, 1)):nt] + ids[4:4 + rng.randint(1, 2)]
-        tb = tb[:4]
-        overlap = "partial" if set(ta) & set(tb) else "disjoint"
+    if rng.random() < 0.5:
+        ids = sorted(rng.sample(range(1, 400), 7))  # arbitrary non-contiguous numbers
     else:
-        ta, tb, overlap = ids[:nt], ids[4:4 + rng.randint(1, 2)], "disjoint"
+        ids = list(range(1, 8))                      # 1, 2, 3 ... as in real projects
+    if u < 0.40:
+        nt = rng.choice([1, 1, 2, 3, 4])
+        T = rng.sample(ids, nt)
+        return _split(rng, na, T), _split(rng, nb, T), "same"
+    if u < 0.72:
+        # partial overlap; half of the time the tomogram one list lacks sorts BELOW a common one
+        nc = rng.choice([1, 1, 2, 3])
+        ne = rng.choice([1, 1, 2])
+        if rng.random() < 0.5:
+            chosen = sorted(rng.sample(ids, nc + ne))
+            extra, common = chosen[:ne], chosen[ne:]
+        else:
+            chosen = rng.sample(ids, nc + ne)
+            extra, common = chosen[:ne], chosen[ne:]
+        side = rng.choice(["a", "nn", "both"])
+        ea = extra if side == "a" else (extra[:1] if side == "both" else [])
+        en = extra if side == "nn" else (extra[1:] if side == "both" else [])
+        ta, tn = (common + ea)[:4], (common + en)[:4]
+        rng.shuffle(ta); rng.shuffle(tn)
+        return _split(rng, na, ta), _split(rng, nb, tn), "partial"
+    if u < 0.82:
+        T = rng.sample(ids, rng.choice([2, 3, 4]))
+        cut = rng.randint(1, len(T) - 1)
+        return _split(rng, na, T[:cut]), _split(rng, nb, T[cut:]), "disjoint"
+    # "clamp": an early tomogram has fewer candidates than k, a later one has more
+    nt = rng.choice([2, 2, 3, 4])
+    T = sorted(rng.sample(ids, nt))
+    ca = _split(rng, max(na, nt), T)
+    cn = [(T[0], rng.randint(1, max(1, k - 1)))] + [(t, k + rng.randint(1, 6)) for t in T[1:]]
+    if rng.random() < 0.3:
+        rng.shuffle(cn)
+    return ca, cn, "clamp"
+
+
+def _one(rng, tier):
+    k = rng.choice([1, 1, 2, 3, 4, 5])
+    ca, cn, family = _tomoconfig(rng, tier, k)
+    if family == "clamp" and k == 1:
+        k = rng.choice([2, 3, 4, 5])
+        ca, cn, family = _tomoconfig_clamp(rng, tier, k)
     layout = rng.choice(["wide", "wide", "cluster", "lattice"])
     R = rng.choice([8, 32, 256]) if layout != "lattice" else 32
-    a = _particles(rng, na, ta, layout, R, 1)
+    order_a = rng.choice(["interleaved", "interleaved", "ascending", "descending", "blocks"])
+    order_n = rng.choice(["interleaved", "interleaved", "ascending", "descending", "blocks"])
+    submode = "per-tomogram" if rng.random() < 0.35 else "unique"
+    pool = None
+    if rng.random() < 0.2:
+        pool = [[_angle(rng, "phi"), _angle(rng, "theta"), _angle(rng, "psi")] for _ in range(rng.randint(1, 4))]
+    a = _particles(rng, _tomoseq(rng, ca, order_a), layout, R, submode, 1, pool)
     rel = rng.random()
-    if rel < 0.18:
+    if rel < 0.15 and family != "clamp":
         nn, relation = [list(r) for r in a], "coincident"
-    elif rel < 0.30:
-        extra = _particles(rng, nb, ta, layout, R, 5000)
+    elif rel < 0.27 and family != "clamp":
+        extra = _particles(rng, _tomoseq(rng, _split(rng, sum(c for _, c in cn), [t for t, _ in ca]), order_n), layout, R, "unique", 5000, pool)
         nn = [list(r) for r in a] + extra
         rng.shuffle(nn)
         nn, relation = nn[:200], "superset"
+        if submode == "per-tomogram":
+            cnt = {}
+            for r in nn:
+                cnt[r[0]] = cnt.get(r[0], 0) + 1
+                r[1] = cnt[r[0]]
     else:
-        nn, relation = _particles(rng, nb, tb, layout, R, 5000), "independent"
-    if relation != "independent":
-        overlap = "same"
-    k = rng.choice([1, 1, 2, 3, 4, 5])
+        nn, relation = _particles(rng, _tomoseq(rng, cn, order_n), layout, R, submode, 1 if submode == "per-tomogram" else 5000, pool), "independent"
     px = rng.choice([1.0, 1.0, 0.5, 2.0, rng.randint(1, 128) / 8.0, rng.randint(1, 128) / 8.0])
     qk = rng.random()
     if qk < 0.08:
@@ -369,7 +636,31 @@ def _one(rng, tier):
     else:
         Q = [rng.gauss(0, 1) for _ in range(4)]
     t = [0.0, 0.0, 0.0] if rng.random() < 0.08 else [rng.uniform(-1000, 1000) for _ in range(3)]
-    return dict(a=a, nn=nn, k=k, px=px, Q=Q, t=t, layout=layout, relation=relation, overlap=overlap)
+    # G1: leave keywords out so that the library's own defaults are exercised
+    omit = [kw for kw in ("feature_id", "rotation_type") if rng.random() < 0.3]
+    if px == 1.0 and rng.random() < 0.3:
+        omit.append("pixel_size")
+    if k == 1 and rng.random() < 0.3:
+        omit.append("nn_number")
+    # G2: the same caller-owned Motl objects across two calls, moved in place between them
+    mode, reuse = "fresh", None
+    if rng.random() < 0.35:
+        mode, reuse = "inplace", rng.choice(["both", "both", "nn", "a"])
+    move_tomos = None
+    alltomos = sorted({int(r[0]) for r in a} | {int(r[0]) for r in nn})
+    if rng.random() < 0.4 and len(alltomos) > 1:
+        move_tomos = sorted(rng.sample(alltomos, rng.randint(1, len(alltomos) - 1)))
+    ta, tn = {int(r[0]) for r in a}, {int(r[0]) for r in nn}
+    overlap = "disjoint" if not (ta & tn) else ("same" if ta == tn else "partial")
+    return dict(a=a, nn=nn, k=k, px=px, Q=Q, t=t, layout=layout, relation=relation, overlap=overlap, family=family, submode=submode,
+                omit=omit, mode=mode, reuse=reuse, move_tomos=move_tomos)
+
+
+def _tomoconfig_clamp(rng, tier, k):
+    while True:
+        ca, cn, family = _tomoconfig(rng, tier, k)
+        if family == "clamp":
+            return ca, cn, family
 
 
 def generate(rng, tier, n):
@@ -385,11 +676,15 @@ def generate(rng, tier, n):
 
 def shrink(case):
     def ok(c):
-        return len(c["a"]) >= 1 and len(c["nn"]) >= 1 and not _ties(c["a"], c["nn"], c["k"])
+        if len(c["a"]) < 1 or len(c["nn"]) < 1 or _ties(c["a"], c["nn"], c["k"]):
+            return False
+        if "pixel_size" in c.get("omit", []) and c["px"] != 1.0:
+            return False
+        if "nn_number" in c.get("omit", []) and c["k"] != 1:
+            return False
+        return True
 
     cands = []
-    a, nn = case["a"], case["nn"]
-    co = case.get("relation") == "coincident"
     for name in ("a", "nn"):
         l = case[name]
         if len(l) > 1:
@@ -399,6 +694,12 @@ def shrink(case):
             if len(l) <= 12:
                 for i in range(len(l)):
                     cands.append(dict(case, **{name: l[:i] + l[i + 1:]}, relation="independent"))
+    if case.get("omit"):
+        cands.append(dict(case, omit=[]))
+    if case.get("mode", "fresh") != "fresh":
+        cands.append(dict(case, mode="fresh", reuse=None))
+    if case.get("move_tomos") is not None:
+        cands.append(dict(case, move_tomos=None))
     if case["k"] > 1:
         cands.append(dict(case, k=case["k"] - 1))
     if case["px"] != 1.0:
@@ -418,20 +719,21 @@ def shrink(case):
             cands.append(dict(case, **{name: [r[:8] + [float(round(x / 30.0) * 30 % 360) for x in r[8:]] for r in l]}, relation="independent"))
         if any(float(x) != round(x) for r in l for x in r[2:5]):
             cands.append(dict(case, **{name: [r[:2] + [float(round(x)) for x in r[2:5]] + r[5:] for r in l]}, relation="independent"))
-        if len({r[0] for r in l}) > 1 or any(r[0] != 1 for r in l):
-            pass
     for c in cands:
         if c != case and ok(c):
             yield c
 
 
 # ------------------------------------------------------------------ implementation
+MOTL_FIELDS = ["tomo_id", "subtomo_id", "x", "y", "z", "shift_x", "shift_y", "shift_z", "phi", "theta", "psi"]
+
+
 def _motl(rows):
     import pandas as pd
     from cryocat import cryomotl
     df = pd.DataFrame(0.0, index=range(len(rows)), columns=COLS)
     arr = np.array(rows, dtype=float).reshape(len(rows), 11)
-    for j, c in enumerate(["tomo_id", "subtomo_id", "x", "y", "z", "shift_x", "shift_y", "shift_z", "phi", "theta", "psi"]):
+    for j, c in enumerate(MOTL_FIELDS):
         df[c] = arr[:, j]
     df["score"] = np.linspace(0.1, 0.9, len(rows))
     df["object_id"] = np.arange(len(rows))[::-1] % 7
@@ -439,28 +741,114 @@ def _motl(rows):
     return cryomotl.Motl(motl_df=df)
 
 
-def _table(a, nn, k, px, coincident):
-    from cryocat import nnana
-    ma = _motl(a)
-    mn = ma if coincident else _motl(nn)
-    try:
-        t = nnana.get_nn_stats(ma, mn, pixel_size=px, feature_id="tomo_id", nn_number=k, rotation_type="angular_distance")
-    except ValueError as e:
-        if "need at least one array" in str(e):
-            return {"empty_raises": True, "rows": []}
-        raise
+def _rewrite_in_place(m, rows):
+    """the caller edits ITS OWN particle list between two analyses: same Motl object, same DataFrame object, new numbers"""
+    arr = np.array(rows, dtype=float).reshape(len(rows), 11)
+    for j, c in enumerate(MOTL_FIELDS):
+        if j >= 2:
+            m.df.loc[:, c] = arr[:, j]
+
+
+def _snap(m):
+    df = m.df
+    return dict(id=id(df), cols=[str(c) for c in df.columns], index=[int(i) for i in df.index], dtypes=[str(d) for d in df.dtypes],
+                values=df.to_numpy(dtype=float, copy=True))
+
+
+def _snapdiff(name, before, m):
+    """what the call changed in a caller-owned particle list (empty when nothing)"""
+    out = []
+    after = _snap(m)
+    if after["id"] != before["id"]:
+        out.append(f"{name}.df was replaced by another DataFrame object")
+    for key in ("cols", "index", "dtypes"):
+        if after[key] != before[key]:
+            out.append(f"{name}.df {key} changed: {str(before[key])[:80]} -> {str(after[key])[:80]}")
+    if after["values"].shape != before["values"].shape:
+        out.append(f"{name}.df shape {before['values'].shape} -> {after['values'].shape}")
+    elif not np.array_equal(after["values"], before["values"], equal_nan=True):
+        r, c = np.argwhere(~((after["values"] == before["values"]) | (np.isnan(after["values"]) & np.isnan(before["values"]))))[0]
+        out.append(f"{name}.df row {int(r)} column {before['cols'][int(c)]}: {before['values'][r, c]!r} -> {after['values'][r, c]!r}")
+    return out
+
+
+def _exc_info(e):
+    import traceback
+    tb = traceback.extract_tb(e.__traceback__)
+    where = ""
+    for fr in reversed(tb):
+        if "/cryocat/" in fr.filename:
+            where = f"{fr.filename.rsplit('/', 1)[-1]}:{fr.lineno}"
+            break
+    last = f"{tb[-1].filename.rsplit('/', 1)[-1]}:{tb[-1].lineno}" if tb else ""
+    return dict(type=type(e).__name__, msg=str(e)[:300], where=where, in_cryocat=bool(where), last=last)
+
+
+def _observe(t):
+    """what came back, with its types: no coercion (G3)"""
+    import pandas as pd
+    if not isinstance(t, pd.DataFrame):
+        return {"not_a_table": type(t).__name__}
     cols = [str(c) for c in t.columns]
-    return {"cols": cols, "rows": t[[c for c in cols if c != "type"]].to_numpy(dtype=float).tolist(),
-            "type": sorted(set(str(x) for x in t["type"])) if "type" in cols else []}
+    dtypes, data, text = {}, {}, {}
+    for c in cols:
+        col = t[c]
+        dtypes[c] = str(col.dtype)
+        if pd.api.types.is_numeric_dtype(col.dtype) and not pd.api.types.is_bool_dtype(col.dtype) and not pd.api.types.is_complex_dtype(col.dtype):
+            data[c] = col.to_numpy().tolist()
+        else:
+            text[c] = sorted({repr(x) for x in col.head(50)})[:5]
+    return {"cols": cols, "dtypes": dtypes, "data": data, "text": text, "nrows": int(len(t))}
+
+
+def _call(ma, mn, case):
+    from cryocat import nnana
+    kw = dict(pixel_size=case["px"], feature_id="tomo_id", nn_number=case["k"], rotation_type="angular_distance")
+    for o in case.get("omit", []):
+        kw.pop(o, None)
+    ba, bn = _snap(ma), (None if mn is ma else _snap(mn))
+    try:
+        t = nnana.get_nn_stats(ma, mn, **kw)
+    except Exception as e:
+        out = {"raised": _exc_info(e)}
+    else:
+        out = _observe(t)
+    out["mutated"] = _snapdiff("first list", ba, ma) + ([] if mn is ma else _snapdiff("second list", bn, mn))
+    out["keywords"] = sorted(kw)
+    return out
 
 
 def run_impl(case):
-    a, nn, k, px = case["a"], case["nn"], case["k"], case["px"]
+    a, nn = case["a"], case["nn"]
+    if "pixel_size" in case.get("omit", []) and case["px"] != 1.0 or "nn_number" in case.get("omit", []) and case["k"] != 1:
+        raise HarnessError("case omits a keyword whose value is not the documented default")
     same_obj = case.get("relation") == "coincident" and a == nn
-    out = {"orig": _table(a, nn, k, px, same_obj)}
-    Q, t = quat_matrix(case["Q"]), np.array(case["t"], dtype=float)
-    ma, mn = move_list(a, Q, t), move_list(nn, Q, t)
-    out["moved"] = _table(ma, mn, k, px, same_obj)
+    a2, nn2 = _moved(case)
+    out = {"moved_lists": {"a": a2, "nn": nn2}}
+    ma = _motl(a)
+    mn = ma if same_obj else _motl(nn)
+    out["orig"] = _call(ma, mn, case)
+    if case.get("mode", "fresh") == "inplace":
+        reuse = case.get("reuse") or "both"
+        if same_obj:
+            _rewrite_in_place(ma, a2)
+            mb = mc = ma
+        else:
+            if reuse in ("both", "a"):
+                _rewrite_in_place(ma, a2)
+                mb = ma
+            else:
+                mb = _motl(a2)
+            if reuse in ("both", "nn"):
+                _rewrite_in_place(mn, nn2)
+                mc = mn
+            else:
+                mc = _motl(nn2)
+        out["moved"] = _call(mb, mc, case)
+    else:
+        mb = _motl(a2)
+        mc = mb if same_obj else _motl(nn2)
+        out["moved"] = _call(mb, mc, case)
     return out
 
 
@@ -468,170 +856,369 @@ def _wire(rows):
     return [[int(r[0]), int(r[1])] + [f2b(x) for x in r[2:]] for r in rows]
 
 
-def _index(rows):
-    """subtomo id -> (tomo, index within the tomogram subset, row) ; None when ids are not unique"""
-    out, cnt = {}, {}
+# ------------------------------------------------------------------ reading one table
+REQUIRED = STATS_COLUMNS
+
+
+def _rows_of(tab):
+    """rows in STATS_COLUMNS order from an observed table, or (None, why)"""
+    if "data" not in tab:
+        return None, "no table"
+    miss = [c for c in REQUIRED if c not in tab["cols"]]
+    if miss:
+        return None, f"columns missing: {miss}"
+    bad = [c for c in REQUIRED if c not in tab["data"]]
+    if bad:
+        return None, f"not numeric: {bad}"
+    return [list(x) for x in zip(*[tab["data"][c] for c in REQUIRED])] if tab["nrows"] else [], None
+
+
+def _subsets(rows):
+    out = {}
     for r in rows:
-        t = int(r[0])
-        i = cnt.get(t, 0)
-        cnt[t] = i + 1
-        if int(r[1]) in out:
-            return None
-        out[int(r[1])] = (t, i, r)
+        out.setdefault(int(r[0]), []).append(r)
     return out
 
 
-def _claims(case, rows):
-    """per query of a common tomogram (tomo, query index, [candidate indices by reported rank]) from the implementation's table"""
-    ia, inn = _index(case["a"]), _index(case["nn"])
-    common = sorted({int(r[0]) for r in case["a"]} & {int(r[0]) for r in case["nn"]})
-    per = {(t, i): [] for (t, i, _) in ia.values() if t in common}
-    bad = []
-    for n, r in enumerate(rows):
-        sa, sn = r[14], r[15]
-        if sa != int(sa) or int(sa) not in ia or sn != int(sn) or int(sn) not in inn:
-            bad.append(n)
+def _cpos(r):
+    return np.array([r[2] + r[5], r[3] + r[6], r[4] + r[7]])
+
+
+def _layout(a, nn, k, nrows):
+    """(tomogram, query position) per row index in the documented layout (common tomograms ascending, rank, query in list order);
+    None when the table does not have the expected number of rows. Used ONLY to choose among pairs about which a row says exactly
+    the same (same numbers, same distance, offsets, angle, orientation), never to decide what a row means otherwise."""
+    sa, sn = _subsets(a), _subsets(nn)
+    out = []
+    for t in sorted(set(sa) & set(sn)):
+        for rank in range(min(k, len(sn[t]))):
+            out += [(t, i) for i in range(len(sa[t]))]
+    return out if len(out) == nrows else None
+
+
+def _identify(a, nn, px, rows, k=None):
+    """which (tomogram, position in the tomogram's subset) of the first / second list every reported row talks about:
+    (t, i, t2, j) per row, None when the reported subtomogram numbers name no such pair. Subtomogram numbers may repeat across
+    tomograms: among the pairs that carry the two reported numbers, pairs within one tomogram are preferred and the pair whose
+    distance and offset are closest to the reported ones is taken."""
+    sa, sn = _subsets(a), _subsets(nn)
+    qmap, nmap = {}, {}
+    for t, l in sa.items():
+        for i, r in enumerate(l):
+            qmap.setdefault(int(r[1]), []).append((t, i))
+    for t, l in sn.items():
+        for j, r in enumerate(l):
+            nmap.setdefault(int(r[1]), []).append((t, j))
+    out = []
+    used_pair, used_query = {}, {}
+    hint = _layout(a, nn, k, len(rows)) if k is not None else None
+    for n_, r in enumerate(rows):
+        s_q, s_n = r[14], r[15]
+        if not (isinstance(s_q, (int, float)) and isinstance(s_n, (int, float)) and s_q == s_q and s_n == s_n
+                and abs(s_q) < 2 ** 53 and abs(s_n) < 2 ** 53 and s_q == int(s_q) and s_n == int(s_n)):
+            out.append(None)
             continue
-        t, i, _ = ia[int(sa)]
-        t2, j, _ = inn[int(sn)]
+        pairs = [(t, i, t2, j) for (t, i) in qmap.get(int(s_q), []) for (t2, j) in nmap.get(int(s_n), [])]
+        same = [p for p in pairs if p[0] == p[2]]
+        cand = same or pairs
+        if not cand:
+            out.append(None)
+            continue
+        if len(cand) > 1:
+            # first what the grid decides exactly (distance and tomogram-frame offset of the pair), then, among the pairs that
+            # fit equally, everything else the row says
+            br = {p: _brute(px, sa[p[0]][p[1]], sn[p[2]][p[3]]) for p in cand}
+
+            def geo(p):
+                b = br[p]
+                s = (abs(r[0] - b["dist"]) + float(np.abs(np.array(r[1:4]) - b["off"]).max())) / (1 + abs(b["dist"]))
+                return s if s == s else float("inf")
+
+            def rest(p):
+                b = br[p]
+                s = float(np.abs(np.array(r[4:7]) - b["frame"]).max()) / (1 + abs(b["dist"])) + abs(r[7] - b["ang"]) + float(np.abs(zxz_matrix(r[11], r[12], r[13]) - b["rel"]).max())
+                return s if s == s else float("inf")
+
+            g = {p: geo(p) for p in cand}
+            cand = [p for p in cand if g[p] <= min(g.values()) + 1e-9 or g[p] == min(g.values())]
+            sc = {p: rest(p) for p in cand}
+            best = min(sc.values())
+            # rows that say exactly the same about several pairs are interchangeable: spread them over the pairs
+            cand = sorted((p for p in cand if sc[p] <= best + 1e-9 or sc[p] == best), key=lambda p: (0 if hint and hint[n_] == p[:2] else 1, used_pair.get(p, 0), used_query.get(p[:2], 0)))
+        p = cand[0]
+        used_pair[p] = used_pair.get(p, 0) + 1
+        used_query[p[:2]] = used_query.get(p[:2], 0) + 1
+        out.append(p)
+    return out
+
+
+def _claims(a, nn, ident):
+    """per query of a common tomogram: [tomogram, query index, candidate indices in the order of their rows]"""
+    sa, sn = _subsets(a), _subsets(nn)
+    common = sorted(set(sa) & set(sn))
+    per = {(t, i): [] for t in common for i in range(len(sa[t]))}
+    stray = []
+    for n, p in enumerate(ident):
+        if p is None:
+            continue
+        t, i, t2, j = p
         if (t, i) not in per:
-            bad.append(n)
+            stray.append(n)
             continue
         per[(t, i)].append(j if t2 == t else 10 ** 6)  # a neighbour from another tomogram can never pass the checker
-    return [[t, i, js] for (t, i), js in sorted(per.items())], bad
+    return [[t, i, js] for (t, i), js in sorted(per.items())], stray
+
+
+def _tables(case, obs):
+    """[(label, first list, second list, observed table)] of the calls of the case"""
+    out = [("orig", case["a"], case["nn"], obs["orig"])]
+    if "moved" in obs and "moved_lists" in obs:
+        out.append(("moved", obs["moved_lists"]["a"], obs["moved_lists"]["nn"], obs["moved"]))
+    return out
+
+
+def _plan(case, obs):
+    """[(tag, driver request)]: the model's table for every call, and the verified checker on every table that could be read"""
+    plan = []
+    if not isinstance(obs, dict) or "orig" not in obs:
+        return [("stats:orig", dict(op="stats", k=case["k"], px=f2b(case["px"]), a=_wire(case["a"]), nn=_wire(case["nn"])))]
+    for label, a, nn, tab in _tables(case, obs):
+        base = dict(k=case["k"], px=f2b(case["px"]), a=_wire(a), nn=_wire(nn))
+        plan.append(("stats:" + label, dict(base, op="stats")))
+        rows, _ = _rows_of(tab)
+        if rows is not None:
+            claims, _ = _claims(a, nn, _identify(a, nn, case["px"], rows, case["k"]))
+            plan.append(("check:" + label, dict(base, op="check", claims=claims)))
+    return plan
 
 
 def requests(case, obs):
-    base = dict(k=case["k"], px=f2b(case["px"]), a=_wire(case["a"]), nn=_wire(case["nn"]))
-    reqs = [dict(base, op="stats")]
-    if isinstance(obs, dict) and "orig" in obs and "rows" in obs["orig"]:
-        claims, _ = _claims(case, obs["orig"]["rows"])
-        reqs.append(dict(base, op="check", claims=claims))
-    return reqs
+    return [r for _, r in _plan(case, obs)]
 
 
 # ------------------------------------------------------------------ judgement
+# rigid-motion invariance of distance / frame offset / relative orientation between two real runs: the thorough tier (2 510 cases)
+# shows at most 1e-12 relative to 1 + distance; tolerance = 10 x that, plus the rounding the harness' own motion puts into the moved
+# coordinates (32 ulp of pixel size x largest moved coordinate), which is not the library's doing
+INV_TOL = 1e-11
+K1_CLAUSE = "disjoint-empty-result"
+
+
 def _ang_tol(theta_deg):
     s = max(abs(math.sin(math.radians(theta_deg) / 2.0)), 3e-8)
     return 1e-9 + math.degrees(2e-15 / s)
 
 
-def _brute(case, row, ia, inn):
-    """the statement evaluated directly for one reported row (own numpy): expected dist, frame offset, angle, relative matrix"""
-    _, _, q = ia[int(row[14])]
-    _, _, n = inn[int(row[15])]
-    px = case["px"]
-    pq = np.array([q[2] + q[5], q[3] + q[6], q[4] + q[7]])
-    pn = np.array([n[2] + n[5], n[3] + n[6], n[4] + n[7]])
+def _euler_tol(rel):
+    """tolerance for a rotation matrix rebuilt from REPORTED Euler angles: scipy's as_euler treats |sin theta| <= 1e-7 as gimbal lock, sets the
+    third angle to 0 and returns angles of a rotation that is off by up to 2 sin(theta) (a representation limit of the Euler triple next to
+    the pole, 1e-5 degrees at most, not a statement about cryoCAT); outside that zone 1e-9"""
+    st = math.hypot(rel[0][2], rel[1][2])
+    return 1e-9 + (3.0 * st + 1e-12 if st <= 1.5e-7 else 0.0)
+
+
+def _brute(px, q, n):
+    """the statement evaluated directly for one (query, neighbour) pair (own numpy): expected dist, frame offset, angle, relative matrix"""
+    pq, pn = _cpos(q), _cpos(n)
     Rq, Rn = zxz_matrix(*q[8:11]), zxz_matrix(*n[8:11])
     off = (pn - pq) * px
     rel = Rq.T @ Rn
-    return dict(dist=float(np.linalg.norm(pn - pq) * px), off=off, frame=Rq.T @ off, ang=rot_angle_deg(rel), rel=rel, same_tomo=int(q[0]) == int(n[0]))
+    return dict(dist=float(np.linalg.norm(pn - pq) * px), off=off, frame=Rq.T @ off, ang=rot_angle_deg(rel), rel=rel)
 
 
 def _decade(x):
-    return "0" if x == 0 else f"1e{int(math.floor(math.log10(x)))}"
+    return "0" if x == 0 else ("nan" if x != x else f"1e{int(math.floor(math.log10(x)))}")
+
+
+def _judge_table(label, case, a, nn, tab, stats_resp, check_resp, dev):
+    """findings about ONE call of get_nn_stats on the lists (a, nn); returns (findings, rows or None, ident)"""
+    out = []
+    k, px = case["k"], case["px"]
+    pre = "" if label == "orig" else "second call (lists after the rigid motion): "
+    sa, sn = _subsets(a), _subsets(nn)
+    common = sorted(set(sa) & set(sn))
+    if tab.get("mutated"):
+        out.append(dict(kind="spec", clause="input-unchanged", detail=pre + "get_nn_stats edited a particle list it was given: " + "; ".join(tab["mutated"])[:400]))
+    if "raised" in tab:
+        e = tab["raised"]
+        txt = f"{e['type']}: {e['msg']} @{e['where'] or e['last']}"
+        if not e["in_cryocat"]:
+            out.append(dict(kind="corr", clause="harness-or-library-raised", detail=pre + "exception without a frame inside cryocat/: " + txt))
+        elif not common and e["type"] == "ValueError" and "need at least one array" in e["msg"]:
+            out.append(dict(kind="spec", clause=K1_CLAUSE, detail=pre + "lists sharing no tomogram: expected an empty result, got " + txt))
+        else:
+            out.append(dict(kind="spec", clause="raises", detail=pre + txt + (f" (common tomograms {common})" if common else " (no common tomogram)")))
+        return out, None, None
+    if "not_a_table" in tab:
+        out.append(dict(kind="corr", clause="table-columns", detail=pre + f"get_nn_stats returned a {tab['not_a_table']}, not a DataFrame"))
+        return out, None, None
+    if tab["cols"] != STATS_COLUMNS + ["type"]:
+        out.append(dict(kind="corr", clause="table-columns", detail=pre + f"columns {tab['cols']} differ from the documented 16 + 'type'"))
+    textual = [c for c in REQUIRED if c in tab["cols"] and c not in tab["data"]]
+    if textual:
+        out.append(dict(kind="spec", clause="column-types", detail=pre + "numeric fields came back as text/object: " + ", ".join(f"{c} ({tab['dtypes'][c]}: {tab['text'].get(c)})" for c in textual)))
+        return out, None, None
+    rows, why = _rows_of(tab)
+    if rows is None:
+        return out, None, None
+    model = stats_resp if isinstance(stats_resp, dict) else {"error": "no response"}
+    # ---- the statement, evaluated on the implementation's table -------------------------------------
+    ident = _identify(a, nn, px, rows, k)
+    unnamed = [n for n, p in enumerate(ident) if p is None]
+    claims, stray = _claims(a, nn, ident)
+    if unnamed:
+        r = rows[unnamed[0]]
+        out.append(dict(kind="spec", clause="subtomogram-number", detail=pre + f"row {unnamed[0]}: subtomo_idx={r[14]} subtomo_nn_idx={r[15]} do not name a particle of the first list and a particle of the second list"))
+        return out, rows, ident
+    if stray:
+        r = rows[stray[0]]
+        t, i, t2, j = ident[stray[0]]
+        out.append(dict(kind="spec", clause="same-tomogram", detail=pre + f"row {stray[0]}: query {r[14]} lies in tomogram {t}, which the second list does not have; neighbour {r[15]} is from tomogram {t2}"))
+        return out, rows, ident
+    ncand = {t: len(sn[t]) for t in common}
+    chk = check_resp["ok"] if isinstance(check_resp, dict) and "ok" in check_resp else None
+    if chk is None:
+        out.append(dict(kind="corr", clause="checker-error", detail=pre + str(check_resp)[:300]))
+    else:
+        for (t, i, js), okk in zip(claims, chk):
+            if not okk:
+                q = sa[t][i]
+                if any(j >= 10 ** 6 for j in js):
+                    out.append(dict(kind="spec", clause="same-tomogram", detail=pre + f"a neighbour reported for query subtomo {q[1]} (tomogram {t}, position {i}) is a particle of another tomogram"))
+                    break
+                out.append(dict(kind="spec", clause="k-closest-ascending",
+                                detail=pre + f"Lean checkKnn rejects the neighbours reported for query subtomo {q[1]} (position {i}) in tomogram {t}: candidate indices {js} (k={k}, {ncand[t]} candidates)"))
+                break
+    for n, (r, p) in enumerate(zip(rows, ident)):
+        t, i, t2, j = p
+        b = _brute(px, sa[t][i], sn[t2][j])
+        if t != t2:
+            out.append(dict(kind="spec", clause="same-tomogram", detail=pre + f"row {n}: neighbour {r[15]} (tomogram {t2}) of query {r[14]} (tomogram {t}) lies in another tomogram")); break
+        e = abs(r[0] - b["dist"]) / (1 + abs(b["dist"]))
+        if not (e <= 1e-9):
+            out.append(dict(kind="spec", clause="distance", detail=pre + f"row {n}: distance {r[0]!r}, Euclidean distance of complete positions x pixel size = {b['dist']!r}")); break
+        s = 1 + float(np.abs(b["off"]).max())
+        e = float(np.abs(np.array(r[4:7]) - b["frame"]).max()) / s
+        if not (e <= 1e-9):
+            out.append(dict(kind="spec", clause="frame-offset", detail=pre + f"row {n}: particle-frame offset {r[4:7]}, inverse orientation applied to the offset = {b['frame'].tolist()}")); break
+        if not (abs(r[7] - b["ang"]) <= _ang_tol(b["ang"])):
+            out.append(dict(kind="spec", clause="angular-distance", detail=pre + f"row {n}: angular distance {r[7]!r}, angle of the relative rotation = {b['ang']!r}")); break
+        e = float(np.abs(zxz_matrix(r[11], r[12], r[13]) - b["rel"]).max())
+        ez = float(np.abs(np.array(r[8:11]) - b["rel"][:, 2]).max())
+        if not (e <= _euler_tol(b["rel"]) and ez <= 1e-9):
+            e = max(e, ez)
+            out.append(dict(kind="spec", clause="relative-orientation", detail=pre + f"row {n}: Euler angles {r[11:14]} / z-axis {r[8:11]} are not inverse(query orientation) * neighbour orientation (max dev {e:.3g})")); break
+    # ---- correspondence with the Lean model (kind corr: the model is not the statement) ----------------
+    if "error" in model or "rows" not in model:
+        out.append(dict(kind="corr", clause="model-error", detail=pre + str(model)[:300]))
+        return out, rows, ident
+    if model["features"] != common:
+        out.append(dict(kind="corr", clause="model-features", detail=pre + f"{model['features']} vs {common}"))
+    mrows = model["rows"]
+    if len(mrows) != len(rows):
+        out.append(dict(kind="corr", clause="row-count", detail=pre + f"implementation reports {len(rows)} rows, the model {len(mrows)} (one per query of a common tomogram and rank < min(k, candidates))"))
+        return out, rows, ident
+    seen = {}
+    for n, (r, mr_, p) in enumerate(zip(rows, mrows, ident)):
+        t, rank, sub, subnn, j = mr_[:5]
+        i = seen.get((t, rank), 0)
+        seen[(t, rank)] = i + 1
+        f = [b2f(x) for x in mr_[5:]]
+        d2, dist, off, frame, rel, tr, sk, ang = f[0], f[1], f[2:5], f[5:8], np.array(f[8:17]).reshape(3, 3), f[17], f[18], f[19]
+        if int(r[14]) != sub or int(r[15]) != subnn or p != (t, i, t, j):
+            out.append(dict(kind="corr", clause="row-identity", detail=pre + f"row {n}: implementation (query {r[14]}, neighbour {r[15]}) = (tomogram, position) {p}, model (query {sub}, neighbour {subnn}, tomogram {t}, rank {rank}, query position {i}, candidate {j})")); break
+        e1 = abs(r[0] - dist) / (1 + abs(dist))
+        e2 = max(float(np.abs(np.array(r[1:4]) - np.array(off)).max()), float(np.abs(np.array(r[4:7]) - np.array(frame)).max())) / (1 + float(np.abs(off).max()))
+        e3 = abs(r[7] - ang)
+        e4e, e4 = float(np.abs(zxz_matrix(r[11], r[12], r[13]) - rel).max()), float(np.abs(np.array(r[8:11]) - rel[:, 2]).max())
+        if _euler_tol(rel) == 1e-9 or e4e > _euler_tol(rel):
+            e4 = max(e4, e4e)
+        dev["dist"], dev["frame"], dev["rel"] = max(dev["dist"], e1), max(dev["frame"], e2), max(dev["rel"], e4)
+        dev["ang"] = max(dev["ang"], e3)
+        if not (e1 <= 1e-9 and e2 <= 1e-9 and e3 <= _ang_tol(ang) and e4 <= 1e-9):
+            out.append(dict(kind="corr", clause="row-values", detail=pre + f"row {n}: implementation {r}, model dist={dist} offset={off} frame={frame} ang={ang} (dev dist {e1:.3g} offsets {e2:.3g} ang {e3:.3g} rel {e4:.3g})")); break
+    return out, rows, ident
+
+
+_memo = {}
 
 
 def _compare(case, obs, resps):
     """returns (findings, deviations)"""
-    out, dev = [], dict(dist=0.0, frame=0.0, ang=0.0, rel=0.0, inv=0.0)
+    key = (id(case), id(obs), id(resps))
+    if _memo.get("key") == key:
+        return _memo["val"]
+    val = _compare_(case, obs, resps)
+    _memo["key"], _memo["val"] = key, val
+    return val
+
+
+def _compare_(case, obs, resps):
+    out, dev = [], dict(dist=0.0, frame=0.0, ang=0.0, rel=0.0, inv=0.0, inv_ang=0.0, inv_over_tol=0.0)
     if "error" in obs:
-        return [dict(kind="spec", clause="raises", detail=obs["error"] + " @" + obs.get("where", ""))], dev
-    model = resps[0]
-    if "error" in model:
-        return [dict(kind="corr", clause="model-error", detail=str(model))], dev
-    mrows = model["rows"]
-    o, m = obs["orig"], obs["moved"]
-    ia, inn = _index(case["a"]), _index(case["nn"])
-    common = sorted({int(r[0]) for r in case["a"]} & {int(r[0]) for r in case["nn"]})
-    if model["features"] != common:
-        out.append(dict(kind="corr", clause="model-features", detail=f"{model['features']} vs {common}"))
-    if o.get("empty_raises") or m.get("empty_raises"):
-        if common:
-            out.append(dict(kind="spec", clause="raises", detail="ValueError (nothing to concatenate) although the lists share tomograms " + str(common)))
-        return out, dev
-    if o["cols"] != STATS_COLUMNS + ["type"]:
-        out.append(dict(kind="spec", clause="table-columns", detail=str(o["cols"])))
-        return out, dev
-    rows = o["rows"]
-    # ---- the statement, evaluated on the implementation's table -------------------------------------
-    claims, bad = _claims(case, rows)
-    if bad:
-        r = rows[bad[0]]
-        out.append(dict(kind="spec", clause="subtomogram-number", detail=f"row {bad[0]}: subtomo_idx={r[14]} subtomo_nn_idx={r[15]} do not name a query of a common tomogram / a particle of the second list"))
-        return out, dev
-    ncand = {t: sum(1 for r in case["nn"] if int(r[0]) == t) for t in common}
-    chk = resps[1]["ok"] if len(resps) > 1 and "ok" in resps[1] else None
-    if chk is None:
-        out.append(dict(kind="corr", clause="checker-error", detail=str(resps[1:])[:300]))
-    else:
-        for (t, i, js), okk in zip(claims, chk):
-            if not okk:
-                q = [r for r in case["a"] if int(r[0]) == t][i]
-                if any(j >= 10 ** 6 for j in js):
-                    out.append(dict(kind="spec", clause="same-tomogram", detail=f"a neighbour reported for query subtomo {q[1]} (tomogram {t}) is a particle of another tomogram"))
-                    break
-                out.append(dict(kind="spec", clause="k-closest-ascending",
-                                detail=f"Lean checkKnn rejects the neighbours reported for query subtomo {q[1]} in tomogram {t}: candidate indices {js} (k={case['k']}, {ncand[t]} candidates)"))
-                break
-    for n, r in enumerate(rows):
-        b = _brute(case, r, ia, inn)
-        if not b["same_tomo"]:
-            out.append(dict(kind="spec", clause="same-tomogram", detail=f"row {n}: neighbour {r[15]} of query {r[14]} lies in another tomogram")); break
-        e = abs(r[0] - b["dist"]) / (1 + abs(b["dist"]))
-        if not (e <= 1e-9):
-            out.append(dict(kind="spec", clause="distance", detail=f"row {n}: distance {r[0]!r}, Euclidean distance of complete positions x pixel size = {b['dist']!r}")); break
-        s = 1 + float(np.abs(b["off"]).max())
-        e = float(np.abs(np.array(r[4:7]) - b["frame"]).max()) / s
-        if not (e <= 1e-9):
-            out.append(dict(kind="spec", clause="frame-offset", detail=f"row {n}: particle-frame offset {r[4:7]}, inverse orientation applied to the offset = {b['frame'].tolist()}")); break
-        if not (abs(r[7] - b["ang"]) <= _ang_tol(b["ang"])):
-            out.append(dict(kind="spec", clause="angular-distance", detail=f"row {n}: angular distance {r[7]!r}, angle of the relative rotation = {b['ang']!r}")); break
-        e = float(np.abs(zxz_matrix(r[11], r[12], r[13]) - b["rel"]).max())
-        e = max(e, float(np.abs(np.array(r[8:11]) - b["rel"][:, 2]).max()))
-        if not (e <= 1e-9):
-            out.append(dict(kind="spec", clause="relative-orientation", detail=f"row {n}: Euler angles {r[11:14]} / z-axis {r[8:11]} are not inverse(query orientation) * neighbour orientation (max dev {e:.3g})")); break
+        if obs.get("where"):
+            return [dict(kind="spec", clause="raises", detail=obs["error"] + " @" + obs.get("where", ""))], dev
+        return [dict(kind="corr", clause="harness-or-library-raised", detail="exception without a frame inside cryocat/: " + obs["error"])], dev
+    by = dict(zip([t for t, _ in _plan(case, obs)], resps))
+    res = {}
+    for label, a, nn, tab in _tables(case, obs):
+        f, rows, ident = _judge_table(label, case, a, nn, tab, by.get("stats:" + label), by.get("check:" + label), dev)
+        # the known finding is reported once per case, not once per call
+        out += [x for x in f if not (x["clause"] == K1_CLAUSE and any(y["clause"] == K1_CLAUSE for y in out))]
+        res[label] = (rows, ident)
     # ---- rigid-motion invariance: two runs of the real code -----------------------------------------
-    mr = m["rows"]
-    if len(mr) != len(rows):
-        out.append(dict(kind="spec", clause="rigid-invariance", detail=f"{len(rows)} rows before, {len(mr)} rows after the rigid motion"))
-    else:
-        for n, (r, r2) in enumerate(zip(rows, mr)):
-            if r[14] != r2[14] or r[15] != r2[15]:
-                out.append(dict(kind="spec", clause="rigid-invariance", detail=f"row {n}: (query, neighbour) = ({r[14]}, {r[15]}) before, ({r2[14]}, {r2[15]}) after the rigid motion")); break
-            e = max(abs(r[0] - r2[0]) / (1 + abs(r[0])),
-                    float(np.abs(np.array(r[4:7]) - np.array(r2[4:7])).max()) / (1 + abs(r[0])),
-                    float(np.abs(zxz_matrix(r[11], r[12], r[13]) - zxz_matrix(r2[11], r2[12], r2[13])).max()),
-                    float(np.abs(np.array(r[8:11]) - np.array(r2[8:11])).max()))
-            ea = abs(r[7] - r2[7])
-            dev["inv"] = max(dev["inv"], e)
-            if not (e <= 1e-6) or not (ea <= 1e-6 + 2 * _ang_tol(r[7])):
-                out.append(dict(kind="spec", clause="rigid-invariance",
-                                detail=f"row {n} (query {r[14]}, neighbour {r[15]}): distance/frame offset/relative orientation change by {e:.3g}, angular distance by {ea:.3g} under the rigid motion: before {r[:14]}, after {r2[:14]}")); break
-    # ---- correspondence with the Lean model ---------------------------------------------------------
-    if len(mrows) != len(rows):
-        out.append(dict(kind="corr" if out else "spec", clause="row-count", detail=f"implementation reports {len(rows)} rows, the model {len(mrows)} (one per query of a common tomogram and rank < min(k, candidates))"))
-        return out, dev
-    for n, (r, mr_) in enumerate(zip(rows, mrows)):
-        t, rank, sub, subnn, j = mr_[:5]
-        f = [b2f(x) for x in mr_[5:]]
-        d2, dist, off, frame, rel, tr, sk, ang = f[0], f[1], f[2:5], f[5:8], np.array(f[8:17]).reshape(3, 3), f[17], f[18], f[19]
-        if int(r[14]) != sub or int(r[15]) != subnn:
-            out.append(dict(kind="corr", clause="row-identity", detail=f"row {n}: implementation (query {r[14]}, neighbour {r[15]}), model (query {sub}, neighbour {subnn}, tomogram {t}, rank {rank})")); break
-        e1 = abs(r[0] - dist) / (1 + abs(dist))
-        e2 = max(float(np.abs(np.array(r[1:4]) - np.array(off)).max()), float(np.abs(np.array(r[4:7]) - np.array(frame)).max())) / (1 + float(np.abs(off).max()))
-        e3 = abs(r[7] - ang)
-        e4 = max(float(np.abs(zxz_matrix(r[11], r[12], r[13]) - rel).max()), float(np.abs(np.array(r[8:11]) - rel[:, 2]).max()))
-        dev["dist"], dev["frame"], dev["rel"] = max(dev["dist"], e1), max(dev["frame"], e2), max(dev["rel"], e4)
-        dev["ang"] = max(dev["ang"], e3)
-        if not (e1 <= 1e-9 and e2 <= 1e-9 and e3 <= _ang_tol(ang) and e4 <= 1e-9):
-            out.append(dict(kind="corr", clause="row-values", detail=f"row {n}: implementation {r}, model dist={dist} offset={off} frame={frame} ang={ang} (dev dist {e1:.3g} offsets {e2:.3g} ang {e3:.3g} rel {e4:.3g})")); break
+    if "moved" in res and res["orig"][0] is not None and res["moved"][0] is not None:
+        rows, mr = res["orig"][0], res["moved"][0]
+        id1, id2 = res["orig"][1], res["moved"][1]
+        if len(mr) != len(rows):
+            out.append(dict(kind="spec", clause="rigid-invariance", detail=f"{len(rows)} rows before, {len(mr)} rows after the rigid motion"))
+        elif None not in id1 and None not in id2:
+            # pair the rows of the two tables by WHAT they are about (query, rank), not by their position in the table
+            def keyed(rr, idd):
+                d, cnt = {}, {}
+                for r, p in zip(rr, idd):
+                    q = (p[0], p[1])
+                    d[(q, cnt.get(q, 0))] = (r, p)
+                    cnt[q] = cnt.get(q, 0) + 1
+                return d
+            k1, k2 = keyed(rows, id1), keyed(mr, id2)
+            mscale = max([1.0] + [abs(x) + abs(y) for r_ in obs["moved_lists"]["a"] + obs["moved_lists"]["nn"] for x, y in zip(r_[2:5], r_[5:8])])
+            for key_ in sorted(k1):
+                (r, p), (r2, p2) = k1[key_], k2.get(key_, (None, None))
+                if r2 is None:
+                    out.append(dict(kind="spec", clause="rigid-invariance", detail=f"query at (tomogram, position) {key_[0]} rank {key_[1]} is reported before but not after the rigid motion")); break
+                if p != p2:
+                    out.append(dict(kind="spec", clause="rigid-invariance", detail=f"query {r[14]} at (tomogram, position) {key_[0]}, rank {key_[1]}: neighbour {r[15]} {p[2:]} before, {r2[15]} {p2[2:]} after the rigid motion")); break
+                M1, M2 = zxz_matrix(r[11], r[12], r[13]), zxz_matrix(r2[11], r2[12], r2[13])
+                ee = float(np.abs(M1 - M2).max())
+                if ee <= _euler_tol(M1) + _euler_tol(M2) - 2e-9:  # both triples may sit in scipy's gimbal-lock zone
+                    ee = min(ee, 0.0)
+                e = max(abs(r[0] - r2[0]) / (1 + abs(r[0])),
+                        float(np.abs(np.array(r[4:7]) - np.array(r2[4:7])).max()) / (1 + abs(r[0])),
+                        ee,
+                        float(np.abs(np.array(r[8:11]) - np.array(r2[8:11])).max()))
+                ea = abs(r[7] - r2[7])
+                tol = INV_TOL + 32 * 2.220446049250313e-16 * case["px"] * mscale / (1 + abs(r[0]))
+                dev["inv"] = max(dev["inv"], e) if e == e else float("nan")
+                dev["inv_over_tol"] = max(dev["inv_over_tol"], e / tol) if e == e else float("nan")
+                dev["inv_ang"] = max(dev["inv_ang"], max(0.0, ea - 2 * _ang_tol(r[7]))) if ea == ea else float("nan")
+                if not (e <= tol) or not (ea <= INV_TOL + 2 * _ang_tol(r[7])):
+                    out.append(dict(kind="spec", clause="rigid-invariance",
+                                    detail=f"query {r[14]}, neighbour {r[15]} (tomogram {p[0]}): distance/frame offset/relative orientation change by {e:.3g}, angular distance by {ea:.3g} under the rigid motion: before {r[:14]}, after {r2[:14]}")); break
     return out, dev
 
 
 def judge(case, obs, resps):
     return _compare(case, obs, resps)[0]
+
+
+def classify(case, obs, finding):
+    """C18-K1 (open): two lists with disjoint tomogram sets raise ValueError('need at least one array to concatenate') instead of
+    giving an empty table. Exactly that class: no common tomogram AND that message."""
+    if finding.get("kind") == "spec" and finding.get("clause") == K1_CLAUSE:
+        if not ({int(r[0]) for r in case["a"]} & {int(r[0]) for r in case["nn"]}):
+            return "C18-K1"
+    return None
 
 
 def nontrivial(case, obs):
@@ -655,19 +1242,44 @@ def _bucket(n):
     return "1" if n == 1 else "2-5" if n <= 5 else "6-30" if n <= 30 else "31-90" if n <= 90 else "91-200"
 
 
+def _first_appearance(rows, common):
+    seq = []
+    for r in rows:
+        if int(r[0]) in common and int(r[0]) not in seq:
+            seq.append(int(r[0]))
+    return "single" if len(seq) < 2 else ("ascending" if seq == sorted(seq) else "not-ascending")
+
+
 def stats(case, obs, resps):
     ta, tn = {int(r[0]) for r in case["a"]}, {int(r[0]) for r in case["nn"]}
     common = ta & tn
-    ncand = [sum(1 for r in case["nn"] if int(r[0]) == t) for t in common]
+    ncand = {t: sum(1 for r in case["nn"] if int(r[0]) == t) for t in common}
     _, dev = _compare(case, obs, resps)
+    o = obs.get("orig", {}) if isinstance(obs, dict) else {}
+    nrows = o.get("nrows", 0)
+    subs_a = [int(r[1]) for r in case["a"]]
+    cs = sorted(common)
+    clamp = any(ncand[cs[i]] < case["k"] and any(ncand[t] > ncand[cs[i]] for t in cs[i + 1:]) for i in range(len(cs)))
+    below = bool(common) and any(t < max(common) for t in (ta ^ tn))
     d = {"n_a": _bucket(len(case["a"])), "n_nn": _bucket(len(case["nn"])), "tomograms_a": len(ta), "tomograms_nn": len(tn),
          "common_tomograms": len(common), "overlap": "disjoint" if not common else ("same" if ta == tn else "partial"),
          "relation": case.get("relation", "?"), "layout": case.get("layout", "?"), "k": case["k"],
-         "k_vs_candidates": ["k>=cands" if c <= case["k"] else "k<cands" for c in ncand] or ["no-candidates"],
-         "rows": _bucket(len(obs.get("orig", {}).get("rows", []))) if len(obs.get("orig", {}).get("rows", [])) else "0",
-         "empty_intersection_raises": bool(obs.get("orig", {}).get("empty_raises", False)),
+         "k_vs_candidates": ["k>=cands" if c <= case["k"] else "k<cands" for c in ncand.values()] or ["no-candidates"],
+         "rows": _bucket(nrows) if nrows else "0",
+         "result": "raised:" + o["raised"]["type"] if "raised" in o else ("table" if "data" in o else "other"),
          "Q": "identity" if case["Q"] == [1.0, 0.0, 0.0, 0.0] else ("special" if all(float(x) == round(x) for x in case["Q"]) else "random"),
-         "px": "1" if case["px"] == 1.0 else "other"}
+         "px": "1" if case["px"] == 1.0 else "other",
+         "omitted_keywords": case.get("omit") or ["none"],
+         "mode": case.get("mode", "fresh") + (":" + case["reuse"] if case.get("reuse") else ""),
+         "moved_tomograms": "all" if case.get("move_tomos") is None else "some",
+         "subtomo_ids": "repeat-across-tomograms" if len(set(subs_a)) < len(subs_a) else "unique-in-list",
+         "first_appearance_a": _first_appearance(case["a"], common),
+         "missing_tomogram_sorts_below_a_common_one": below,
+         "early_tomogram_clamps_k": clamp,
+         "identical_orientation_pairs": any(r[8:11] == n[8:11] for r in case["a"][:40] for n in case["nn"][:40] if int(r[0]) == int(n[0])),
+         "dtypes": sorted(set(o.get("dtypes", {}).values())) or ["-"],
+         "subtomo_idx_dtype": o.get("dtypes", {}).get("subtomo_idx", "-"),
+         "type_column": o.get("text", {}).get("type", ["-"])}
     for k_, v in dev.items():
         d["maxdev_" + k_] = _decade(v)
     return d
@@ -675,7 +1287,8 @@ def stats(case, obs, resps):
 
 def sample_view(case):
     return dict(n_a=len(case["a"]), n_nn=len(case["nn"]), k=case["k"], px=case["px"], Q=case["Q"], t=case["t"], relation=case.get("relation"),
-                layout=case.get("layout"), first_a=case["a"][0], first_nn=case["nn"][0])
+                layout=case.get("layout"), omit=case.get("omit"), mode=case.get("mode"), reuse=case.get("reuse"), move_tomos=case.get("move_tomos"),
+                first_a=case["a"][0], first_nn=case["nn"][0])
 
 
 # ------------------------------------------------------------------ probes of the recorded assumptions
@@ -696,15 +1309,20 @@ def probes(rng):
             srt = np.sort(D, axis=1)[:, :k]
             okk = okk and bool(np.abs(d - srt).max() <= 1e-12) and bool(np.abs(np.take_along_axis(D, idx, 1) - d).max() <= 1e-12)
         out.append(dict(name="sklearn KDTree.query(k) = brute force (20 random dyadic point sets)", ok=okk, detail=""))
-        e1 = e2 = 0.0
-        for _ in range(200):
+        e1 = e2 = e3 = 0.0
+        zone = 0
+        for _ in range(300):
             ang = [_angle(rng, "phi"), _angle(rng, "theta"), _angle(rng, "psi")]
             M = srot.from_euler("zxz", ang, degrees=True).as_matrix()
             e1 = max(e1, float(np.abs(M - zxz_matrix(*ang)).max()))
             back = srot.from_matrix(M).as_euler("zxz", degrees=True)
-            e2 = max(e2, float(np.abs(zxz_matrix(*back) - M).max()), float(np.abs(zxz_matrix(*zxz_angles(M)) - M).max()))
-        out.append(dict(name="scipy from_euler('zxz') = Rz(psi)Rx(theta)Rz(phi); as_euler / own extraction return the same rotation", ok=e1 < 1e-12 and e2 < 1e-9,
-                        detail=f"max dev {e1:.2e} / {e2:.2e}"))
+            tol = _euler_tol(M)
+            zone += tol > 1e-9
+            e2 = max(e2, float(np.abs(zxz_matrix(*back) - M).max()) / tol)
+            e3 = max(e3, float(np.abs(zxz_matrix(*zxz_angles(M)) - M).max()))
+        out.append(dict(name="scipy from_euler('zxz') = Rz(psi)Rx(theta)Rz(phi); own Euler extraction exact to 1e-12 everywhere; scipy as_euler returns the same rotation within 1e-9, within 3 sin(theta) inside its gimbal-lock zone |sin theta| <= 1e-7",
+                        ok=e1 < 1e-12 and e2 <= 1.0 and e3 <= 1e-12,
+                        detail=f"max dev {e1:.2e} / own {e3:.2e} / as_euler {e2:.2f} of its tolerance ({zone} of 300 orientations in the gimbal zone)"))
     except Exception as e:
         out.append(dict(name="assumption probes", ok=False, detail=f"{type(e).__name__}: {e}"))
     return out
@@ -716,11 +1334,15 @@ LEVEL_TEXT = ("Lean 4 theorems about an executable model of nnana.get_nn_stats, 
               "lists decides KnnSpec exactly (checkKnn_iff); every row of the table is the report about a query and a same-tomogram particle with the stated distance, "
               "subtomogram numbers, particle-frame offset, relative orientation and angle (nnStats_sound), every query of a common tomogram gets all its rows "
               "(nnStats_complete), rows are ordered tomogram/rank/query (nnStats_order, tomoRows_queries_in_list_order, tomoRows_length); the code's "
-              "from_euler('zxz', -[psi,theta,phi]) is exactly the inverse orientation (inverse_orientation); and for every orthogonal Q and every translation the whole "
-              "table is unchanged except that the tomogram-frame offset co-rotates (nnStats_rigid, pair_rigid). Tied to the source by 27 regenerated expression "
-              "anchors and by a differential run of the real get_nn_stats against the model, the verified checker on the real output, and two real runs on rigidly moved copies")
-LEVEL_NOTE = ("partial: KD-tree = brute force, scipy Euler conversions, square root / arccos and the quaternion form of the angular distance are outside the proofs "
+              "from_euler('zxz', -[psi,theta,phi]) is exactly the inverse orientation (inverse_orientation); over the reals, with the real counterparts of the driver's "
+              "services, the row's angular distance IS the rotation angle arccos((trace-1)/2) of the relative orientation R_q^T R_n and IS the quaternion form "
+              "2 arccos min(|q1.q2|,1) that geom.angular_distance evaluates (angular_distance_is_rotation_angle, nnStats_angular_real, through C06); and for every "
+              "orthogonal Q and every translation the whole table is unchanged except that the tomogram-frame offset co-rotates (nnStats_rigid, pair_rigid). Tied to the "
+              "source by 39 regenerated anchors (expressions with local variables renamed by binding order, signature defaults, call keywords, whole function bodies) and by "
+              "a differential run of the real get_nn_stats against the model, the verified checker on the real output of BOTH calls, two real runs on rigidly moved copies "
+              "or on the same objects moved in place, and before/after comparison of the caller's lists")
+LEVEL_NOTE = ("partial: KD-tree = brute force, scipy Euler conversions, binary64 square root / arccos are outside the proofs "
               "(services or assumptions, probed and compared numerically each run); theorems are exact-arithmetic facts, the implementation runs in binary64 "
-              "(exact on the generated 1/64 grid for all neighbour decisions)")
-TECHNIQUE = "Lean 4 proof (sorting/permutation lemmas, 3x3 matrix algebra over any commutative ring, relational lifting over lists) + regenerated expression anchors + differential correspondence + verified checker on the implementation's output"
+              "(exact on the generated 1/64 grid for all neighbour decisions); open known finding C18-K1 (disjoint tomogram sets raise ValueError)")
+TECHNIQUE = "Lean 4 proof (sorting/permutation lemmas, 3x3 matrix algebra over any commutative ring, relational lifting over lists, real analysis through C06 for the angle) + regenerated structural anchors + differential correspondence + verified checker on the implementation's output + cross-call state stream"
 DESIGN_REF = "DESIGN.md section 4, C18"
